@@ -27,6 +27,7 @@ class Refs(object):
         self.stats = {}
         self.notes = []
         self._rec_direct = {}
+        self._frozen = {}
         self.timed_out = False
         self.tasks = []
 
@@ -114,7 +115,18 @@ class Refs(object):
         cg = self.al.CGraph()
         try:
             regs = [self.F(x) for x in inputs]
-            regs = programs.run_program(prog, regs, self.B)
+            if prog.get('frozen'):
+                for ins in prog['instrs']:
+                    if ins.get('off'):
+                        cg.trace_off()
+                        try:
+                            regs.append(programs.exec_instr(ins, regs, self.B))
+                        finally:
+                            cg.trace_on()
+                    else:
+                        regs.append(programs.exec_instr(ins, regs, self.B))
+            else:
+                regs = programs.run_program(prog, regs, self.B)
         finally:
             cg.trace_off()
         n = len(prog['n_in'])
@@ -122,9 +134,22 @@ class Refs(object):
         cg.dependentFunctionList = [regs[i] for i in prog['outputs']]
         return cg
 
-    def direct(self, prog, inputs):
-        regs = programs.run_program(prog, inputs, self.B)
+    def direct(self, prog, inputs, cidx=None):
+        if prog.get('frozen') and cidx is not None:
+            # values computed while recording was off are constants of the graph: they keep the
+            # value the program gave them at the recording inputs
+            regs = programs.run_program_frozen(prog, inputs, self.B, self.frozen_regs(cidx))
+        else:
+            regs = programs.run_program(prog, inputs, self.B)
         return programs.outputs_of(prog, regs)
+
+    def frozen_regs(self, cidx):
+        if cidx not in self._frozen:
+            cfg = self.run['clients'][cidx]
+            rec = cfg['rec']
+            inputs = [make_value(self.al, rec['kind'], v, rec.get('dtype')) for v in rec['vals']]
+            self._frozen[cidx] = programs.run_program(cfg['program'], inputs, self.B)
+        return self._frozen[cidx]
 
     def rec_direct(self, cidx):
         """Record-time reference: the program stepped directly on the raw
@@ -455,7 +480,7 @@ class Refs(object):
         if 'C05' in self.props:
             def cont5(want):
                 self.verdict('C05', 'O5.2', ev, same_outcome(got, want), got=brief(got), want=brief(want))
-            self.defer(lambda: enc(self.direct(prog, [dec(a, self.al) for a in args])), es, cont5)
+            self.defer(lambda: enc(self.direct(prog, [dec(a, self.al) for a in args], ev['c'])), es, cont5)
         if 'C06' in self.props:
             def call(cg):
                 xs = [dec(a, self.al) for a in args]
